@@ -38,6 +38,9 @@ def run(ctx):
     ctx.guarded(r, JD.r_bulk_driver)
     r = ctx.rule("R2c", "stride, element-size, register-window and frame constants agree with the data types", 19)
     ctx.guarded(r, JD.r_strides)
+    r = ctx.rule("R2k", "load_imm loads its argument on every path (or every clobber of the immediate register invalidates its cache)", 4)
+    for kind in AC.ALL:
+        ctx.guarded(r, AC.check_load_imm, kind)
     r = ctx.rule("R2j", "single-instruction builders use their opcode's instruction family, operand order and data width", 41)
     for kind in AC.ALL:
         ctx.guarded(r, AC.check_simple_builders, kind)
